@@ -36,6 +36,12 @@ OPS = {
     # one main file, `include lib.asm`, resolved through DIFFERENT include_dirs lists that hold different lib.asm files
     'incX':       dict(inc='x'),
     'incY':       dict(inc='y', compress=True),
+    # a nested include that is missing (fails while READING an included file), and the same tree complete
+    'incfail':    dict(tree='fail'),
+    'incgood':    dict(tree='good'),
+    # two programs defining the same labels in opposite order, handed ONE caller-owned labels dict (and one constants dict) that is reused from call to call
+    'sharedAB':   dict(src='first:\naddi x8, x8, 1\nsecond:\nadd x5, x6, x7\nj first\n', compress=True, shared=True),
+    'sharedBA':   dict(src='second:\naddi x8, x8, 1\nadd x5, x6, x7\nfirst:\nj second\n', compress=True, shared=True),
     'path_A':     dict(path=True, main='include inc.asm\nM:\nnop\n', inc='FOO = 1\nI:\naddi x8, x8, FOO\n'),
     'path_B':     dict(path=True, main='M:\ninclude inc.asm\nadd x5, x6, x7\n', inc='FOO = 2\nI:\naddi x9, x9, FOO\n', compress=True),
 }
@@ -89,12 +95,15 @@ def state_hash():
 
 
 SHARED_INC = []
+SHARED_LABELS, SHARED_CONSTS = {}, {}
 
 
 def run_op(name, scratch, keep):
     op = OPS[name]
     labels, consts = {}, {}
     kw = dict(compress=op.get('compress', False))
+    if op.get('shared'):
+        labels, consts = SHARED_LABELS, SHARED_CONSTS
     if not op.get('nodicts'):
         kw.update(labels=labels, constants=consts)
     if op.get('board'):
@@ -111,6 +120,20 @@ def run_op(name, scratch, keep):
             SHARED_INC.append(os.path.join(scratch, 'lib'))
         kw['include_dirs'] = SHARED_INC
         arg = os.path.join(scratch, 'b%d' % op['board'], 'main.asm')
+    elif op.get('tree'):
+        d = os.path.join(scratch, 'tree')
+        os.makedirs(d, exist_ok=True)
+        with open(os.path.join(d, 'main.asm'), 'w') as f:
+            f.write('top:\ninclude common.asm\naddi x8, x8, CHIPV\n')
+        with open(os.path.join(d, 'common.asm'), 'w') as f:
+            f.write('common:\ninclude chip.asm\n')
+        chip = os.path.join(d, 'chip.asm')
+        if op['tree'] == 'good':
+            with open(chip, 'w') as f:
+                f.write('CHIPV = 3\n')
+        elif os.path.exists(chip):
+            os.remove(chip)
+        arg = os.path.join(d, 'main.asm')
     elif op.get('inc'):
         for d, v in (('x', 0x58), ('y', 0x59)):
             os.makedirs(os.path.join(scratch, 'lib' + d), exist_ok=True)
@@ -142,7 +165,11 @@ def run_op(name, scratch, keep):
         res.update(status=type(e).__name__, message=str(e).replace(scratch, '<S>'))
     res['labels'] = list(labels.items())
     res['constants'] = list(consts.items())
-    keep.append((labels, consts, list(labels.items()), list(consts.items())))
+    if not op.get('shared'):
+        keep.append((labels, consts, list(labels.items()), list(consts.items())))
+    else:
+        # what a caller would read back for THIS program: its own labels (a reused dict may hold labels of other programs as well)
+        res['labels'] = sorted((k, v) for k, v in labels.items() if k in ('first', 'second'))
     # dictionaries handed out by earlier calls must not be touched by later ones
     res['earlier_dicts_intact'] = all(list(l.items()) == ls and list(c.items()) == cs for l, c, ls, cs in keep)
     # a caller-owned include_dirs list must come back exactly as it was handed in
